@@ -256,7 +256,7 @@ impl Property for C09 {
             knobs: Knobs { max_nodes, ..Default::default() },
         };
         match tier {
-            Tier::Quick => vec![mk("trees", 80_000, 30)],
+            Tier::Quick => vec![mk("trees", 400_000, 30)],
             Tier::Thorough => vec![mk("trees", 2_000_000, 30), mk("trees-big", 100_000, 100)],
         }
     }
